@@ -71,13 +71,13 @@ theorem core3_roundtrip (useHex : Int → Bool) (f : Core3.Func) (h : Core3.wf f
   exact Core3.translate_wf f h.1 h.2
 
 /-- non-vacuity: `define i32 @f(i32 %x, i32 %0) { e: %1 = add i32 %x, 7 / %c = icmp eq i32 %1, %0 / br i1 %c, label %2, label %2 //
-    2: store i32 %1, i32* null / ret i32 %1 }` is well-formed -/
+    2: store i32 %1, i32* null, align 4 / ret i32 %1 }` is well-formed -/
 def core3Sample : Core3.Func :=
   ⟨.int 32, [102], [(.int 32, .name [120]), (.int 32, .id 0)],
    [⟨.name [101], [⟨some (.id 1), 0, [.tyval (.int 32) (.loc (.name [120])), .val (.const (.int 7))]⟩,
                   ⟨some (.name [99]), 13, [.tyval (.int 32) (.loc (.id 1)), .val (.loc (.id 0))]⟩],
       ⟨none, 28, [.val (.loc (.name [99])), .lab (.id 2), .lab (.id 2)]⟩⟩,
-    ⟨.id 2, [⟨none, 24, [.tyval (.int 32) (.loc (.id 1)), .tyval (.ptr (.int 32) 0) (.const .null)]⟩],
+    ⟨.id 2, [⟨none, 24, [.tyval (.int 32) (.loc (.id 1)), .tyval (.ptr (.int 32) 0) (.const .null), .align (some 4)]⟩],
       ⟨none, 26, [.retv (some (.int 32, .loc (.id 1)))]⟩⟩]⟩
 
 example : Core3.wf core3Sample = true := by decide +kernel
